@@ -6,9 +6,9 @@ EXTENDS Integers, Sequences, FiniteSets, TLC, Json, IOUtils
 TraceLog == ndJsonDeserialize(IOEnv.TRACE)
 Nodes == 1..9
 Msgs == 1..60
-VARIABLES kind, conc, preds, ext, pend, begun, done, run, putdone, before, nextseq, decs, thr, seqno, key, tuples, cancelled, snap, rsv, consumed, recv, l
+VARIABLES kind, conc, preds, ext, pend, putseq, begun, done, run, putdone, before, nextseq, decs, thr, seqno, key, tuples, cancelled, snap, rsv, consumed, recv, l
 A == INSTANCE FlowAbs
-vars == <<kind, conc, preds, ext, pend, begun, done, run, putdone, before, nextseq, decs, thr, seqno, key, tuples, cancelled, snap, rsv, consumed, recv, l>>
+vars == <<kind, conc, preds, ext, pend, putseq, begun, done, run, putdone, before, nextseq, decs, thr, seqno, key, tuples, cancelled, snap, rsv, consumed, recv, l>>
 Ev == TraceLog[l]
 Is(e) == l <= Len(TraceLog) /\ TraceLog[l].e = e /\ l' = l + 1
 TInit == A!FInit /\ l = 1
@@ -33,8 +33,8 @@ TNext == \/ Is("Node") /\ A!DeclNode(Ev.n, Ev.kind, Ev.conc, Ev.thr)
          \/ Is("Uncancel") /\ A!ResetCancel
          \/ Is("WaitRet") /\ A!WaitRet(Ev.live, Ev.lossless)
          \/ Is("Tuples") /\ A!TuplesOK(Ev.n, Ev.a, Ev.b, Ev.cnt)
-         \/ Is("Scenario") /\ UNCHANGED <<kind, conc, preds, ext, pend, begun, done, run, putdone, before, nextseq, decs, thr, seqno, key, tuples, cancelled, snap, rsv, consumed, recv>>
-         \/ Is("Reset") /\ kind' = [n \in Nodes |-> "none"] /\ conc' = [n \in Nodes |-> 0] /\ preds' = [n \in Nodes |-> {}] /\ ext' = [n \in Nodes |-> {}] /\ pend' = [n \in Nodes |-> {}]
+         \/ Is("Scenario") /\ UNCHANGED <<kind, conc, preds, ext, pend, putseq, begun, done, run, putdone, before, nextseq, decs, thr, seqno, key, tuples, cancelled, snap, rsv, consumed, recv>>
+         \/ Is("Reset") /\ kind' = [n \in Nodes |-> "none"] /\ conc' = [n \in Nodes |-> 0] /\ preds' = [n \in Nodes |-> {}] /\ ext' = [n \in Nodes |-> {}] /\ pend' = [n \in Nodes |-> {}] /\ putseq' = [n \in Nodes |-> <<>>]
                         /\ begun' = [n \in Nodes |-> {}] /\ done' = [n \in Nodes |-> {}] /\ run' = [n \in Nodes |-> {}] /\ putdone' = [n \in Nodes |-> <<>>]
                         /\ before' = [m \in Msgs |-> {}] /\ nextseq' = [n \in Nodes |-> 0] /\ decs' = [n \in Nodes |-> 0] /\ thr' = [n \in Nodes |-> 0]
                         /\ seqno' = [m \in Msgs |-> -1] /\ key' = [m \in Msgs |-> 0] /\ tuples' = [n \in Nodes |-> 0] /\ cancelled' = FALSE
